@@ -22,6 +22,7 @@ EXPLANATION = (
     "[:, :ncv]; the mute gain is applied before re-attachment; sync rows are the rows of the data read; (D3) the saturation "
     "file has sr.ns entries and is written with the read's bounds; (D4) the fan-out runs my_function(i, n) for i in range(n) with "
     "the same n as n_jobs. Byte identity across worker counts and equality with in-memory destriping are NOT decided."
+    ' (as built) sync provenance follows views of a single per-batch read; the mute may multiply the voltage traces inside the concatenation; the kept range may be held in a slice object built from is_first / is_last flags; one seek shared by all workers is evaluated for worker 0 and worker i.'
 )
 ASSUMPTIONS = [
     "joblib.Parallel runs each delayed call exactly once (model table); workers write disjoint or identical bytes at the decided offsets",
